@@ -262,6 +262,29 @@ fn short_inputs() -> &'static Vec<(Ev, String)> {
     })
 }
 
+/// every name of the vocabulary (and `mod`, `and`, `or`, `xor`, `div` - words a front end might want to accept) as a
+/// free-standing word between operands: whitespace around it must not turn it into something else
+fn ws_keyword_cases() -> &'static Vec<(Ev, String, String)> {
+    static CELL: OnceLock<Vec<(Ev, String, String)>> = OnceLock::new();
+    CELL.get_or_init(|| {
+        let mut kws: Vec<String> = vocab::all_func_names().iter().map(|s| s.to_string()).collect();
+        kws.extend(["pi", "e", "rad", "π", "i", "and", "or", "xor", "div", "not", "x", "times", "deg", "E", "e-", "e+"].iter().map(|s| s.to_string()));
+        let mut v = Vec::new();
+        for ev in Ev::ALL {
+            for kw in &kws {
+                for pat in ["7 K 3", "7 K(3)", "(7) K (3)", "7 K 3 K 2", "K 3", "7 K", "7 K -3", "1.5 K 2", "7K 3", "7 K3", "@ K @"] {
+                    for w in [' ', '\t', '\u{a0}', '\u{2003}'] {
+                        let with: String = pat.replace('K', kw).chars().map(|c| if c == ' ' { w } else { c }).collect();
+                        let stripped: String = with.chars().filter(|c| !vocab::is_ws(*c)).collect();
+                        v.push((ev, stripped, with));
+                    }
+                }
+            }
+        }
+        v
+    })
+}
+
 pub fn profile(ev: Ev) -> Profile {
     let mut p = Profile::full(ev);
     p.max_depth = 4;
@@ -274,12 +297,13 @@ impl Prop for C13Prop {
         "C13"
     }
     fn rule(&self) -> String {
-        "Pairs (S, S') evaluated with the same placeholder. S: well-formed trees of every evaluator, near-miss mutants and raw strings; long forms (chains, nesting and lists of 2..512 elements) each with one more redundant bracket pair, a prefix +, and a whitespace character; b^N against b with the superscript run for digit strings N of 1..22 digits on bases around 1. S': whitespace — every one of the 25 White_Space characters at every position of a fixed list of short inputs (exhaustive), and 1..6 random whitespace characters at random positions of random S (incl. inside names and numbers); alias swap at token level (pi/π, sgn/sign/signum, med/median, trunc/truncate, w/lambert_w, asinh/arsinh, acosh/arcosh, atanh/artanh; one site or all sites); for well-formed S additionally one of: ⌊x⌋<->floor(x), ⌈x⌉<->ceil(x), mod(a,b)<->((a)%(b)), pow(a,b)<->((a)^(b)), ^N<->superscript run under C13's side conditions, prefix + at an operand position, redundant round brackets around a subtree. Oracle: identical outcome (same Ok bits with NaNs identified, or Err in both). non-trivial = S' differs from S textually and (S evaluates to Ok, or S has >=2 tokens); distinct by (evaluator, S, S', placeholder).".into()
+        "Pairs (S, S') evaluated with the same placeholder. S: well-formed trees of every evaluator, near-miss mutants and raw strings; long forms (chains, nesting and lists of 2..512 elements) each with one more redundant bracket pair, a prefix +, and a whitespace character; b^N against b with the superscript run for digit strings N of 1..22 digits on bases around 1. S': whitespace — every one of the 25 White_Space characters at every position of a fixed list of short inputs (exhaustive), every vocabulary name and a few foreign words (mod, and, or, div, E …) as a free-standing word between operands with whitespace around it against the stripped text, and 1..6 random whitespace characters at random positions of random S (incl. inside names and numbers); alias swap at token level (pi/π, sgn/sign/signum, med/median, trunc/truncate, w/lambert_w, asinh/arsinh, acosh/arcosh, atanh/artanh; one site or all sites); for well-formed S additionally one of: ⌊x⌋<->floor(x), ⌈x⌉<->ceil(x), mod(a,b)<->((a)%(b)), pow(a,b)<->((a)^(b)), ^N<->superscript run under C13's side conditions, prefix + at an operand position, redundant round brackets around a subtree. Oracle: identical outcome (same Ok bits with NaNs identified, or Err in both). non-trivial = S' differs from S textually and (S evaluates to Ok, or S has >=2 tokens); distinct by (evaluator, S, S', placeholder).".into()
     }
     fn subs(&self, tier: Tier) -> Vec<Sub> {
         let ws_total: u64 = short_inputs().iter().map(|(_, s)| ws_positions_total(s)).sum();
         vec![
             Sub { name: "ws-exhaustive", kind: SubKind::Enum { count: ws_total } },
+            Sub { name: "ws-keywords", kind: SubKind::Enum { count: ws_keyword_cases().len() as u64 } },
             Sub { name: "long", kind: SubKind::Enum { count: super::long::all(true).len() as u64 * 4 } },
             Sub { name: "superscript-digits", kind: SubKind::Random { cases: tier.pick(100_000, 4_000_000), len: 40 } },
             Sub { name: "ws-random", kind: SubKind::Random { cases: tier.pick(400_000, 20_000_000), len: 160 } },
@@ -288,6 +312,12 @@ impl Prop for C13Prop {
         ]
     }
     fn gen_enum(&self, sub: &str, mut idx: u64, _tier: Tier) -> Option<Case> {
+        if sub == "ws-keywords" {
+            let (ev, stripped, with) = ws_keyword_cases().get(idx as usize)?.clone();
+            let mut case = Case::new(ev, stripped, ph_pool(ev)[4 % ph_pool(ev).len()].clone());
+            case.aux = vec![with, "whitespace around a word".to_string()];
+            return Some(case);
+        }
         if sub == "long" {
             // every long form with: one more redundant bracket pair, a prefix +, a whitespace character in the
             // middle, and a redundant pair around its first operand
